@@ -2,7 +2,7 @@
 From Coq Require Import NArith List Bool.
 Import ListNotations.
 From DV Require Import Base.Outcome Base.Bytes Base.Lex Base.Names.
-From DV Require Import C17.Model C17.Proofs C18.Model C14.Gen C14.Model C14.Proofs C14.ProofsDenial C14.ProofsSig C14.ProofsL2H C14.ModelN3 C14.ProofsN3 C14.ModelChain C14.ProofsChain C14.ModelDs C14.ProofsDs C14.ModelTa C14.ProofsTa C14.ModelWild C14.ProofsWild C14.ProofsDname C14.ModelNode C14.ProofsNode C14.ModelCache C14.ProofsCache C14.ModelGroups C14.ProofsGroups.
+From DV Require Import C17.Model C17.Proofs C18.Model C14.Gen C14.Model C14.Proofs C14.ProofsDenial C14.ProofsSig C14.ProofsL2H C14.ModelN3 C14.ProofsN3 C14.ModelChain C14.ProofsChain C14.ModelDs C14.ProofsDs C14.ModelTa C14.ProofsTa C14.ModelWild C14.ProofsWild C14.ProofsDname C14.ModelNode C14.ProofsNode C14.ModelCache C14.ProofsCache C14.ModelGroups C14.ProofsGroups C14.ModelConn C14.ProofsConn.
 Local Open Scope N_scope.
 
 Theorem C14_nsec_in_range_spec : forall t o n,
@@ -408,3 +408,28 @@ Theorem C14_signature_attached_only_to_covered_rrset : forall rs g s,
                               r_class r = r_class s /\ r_type r = r_type s.
 Proof. exact signature_attached_only_to_covered_rrset. Qed.
 Print Assumptions C14_signature_attached_only_to_covered_rrset.
+
+(* ---- the validating transport: header flags handed to the client *)
+Theorem C14_ad_only_when_validated_secure : conn_cd_do_repairs_ad = true ->
+  forall req_cd req_do req_ad up_ad up_cd st,
+  o_ad (connection req_cd req_do req_ad up_ad up_cd st) = true ->
+  req_cd = false /\ st = Secure /\ (req_do = true \/ req_ad = true).
+Proof. exact ad_only_when_validated_secure. Qed.
+Print Assumptions C14_ad_only_when_validated_secure.
+
+Theorem C14_upstream_ad_never_passed : conn_cd_do_repairs_ad = true ->
+  forall req_cd req_do req_ad up_cd st,
+  o_ad (connection req_cd req_do req_ad true up_cd st) = o_ad (connection req_cd req_do req_ad false up_cd st).
+Proof. exact upstream_ad_never_passed. Qed.
+Print Assumptions C14_upstream_ad_never_passed.
+
+Theorem C14_upstream_ad_leak_refuted : conn_cd_do_repairs_ad = false ->
+  exists st, o_ad (connection true true false true true st) = true.
+Proof. exact upstream_ad_leak_refuted. Qed.
+Print Assumptions C14_upstream_ad_leak_refuted.
+
+Theorem C14_bogus_is_servfail : forall req_do req_ad up_ad up_cd,
+  o_servfail (connection false req_do req_ad up_ad up_cd Bogus) = true /\
+  o_ad (connection false req_do req_ad up_ad up_cd Bogus) = false.
+Proof. exact bogus_is_servfail. Qed.
+Print Assumptions C14_bogus_is_servfail.
